@@ -86,7 +86,9 @@ def variants(d, rng: random.Random):
     # a text key: ids that differ only in blanks at their ends, or in letter case, are different keys
     for i, f in enumerate(d["fields"]):
         if f["pk"] and f["kind"] == "strlau" and f["off"] >= 0:
-            for txt in (b"KSFO", b"KSFO ", b" KSFO", b"KSFO\t", b"ksfo", b"", b" ", b"KSFX"):
+            long_ = b"STATION-" + b"0123456789" * 6          # ids of 69..120 characters that differ only near their ends
+            for txt in (b"KSFO", b"KSFO ", b" KSFO", b"KSFO\t", b"ksfo", b"", b" ", b"KSFX", long_ + b"A", long_ + b"B", long_,
+                        long_ * 2 + b"1", long_ * 2 + b"2"):
                 out.append((f"text{i+1}", corpus.build_payload(d, {**base_codes, i: txt}, rng)))
     # two key fields: pairs of key values whose decimal texts glue to the same string (1|11 and 11|1, 2|20 and 22|0):
     # a hash over a separator-less concatenation cannot tell them apart
